@@ -1,1 +1,5 @@
+pub mod c01;
 pub mod c09;
+pub mod c11;
+pub mod c12;
+pub mod ccommon;
